@@ -1,65 +1,10 @@
 // ======================================================================================
-// units/C13/constants_core.rs - lib/analysis/constants.rs: the REAL types (extracted) and the
-// contracts of Constant::{get, partial_cmp}, Constants::{new, scalar, set_scalar, top, eval, join,
-// partial_cmp}.  Included inside `pub mod constants`.
+// units/C13/constants_core.rs - lib/analysis/constants.rs: contracts of Constant::{get, partial_cmp},
+// Constants::{new, scalar, set_scalar, top, eval, join, partial_cmp}.
+// Included inside `pub mod constants` after constants_spec.rs.
 // ======================================================================================
 
 //@ source lib/analysis/constants.rs
-//@ item enum Constant
-//@ item struct Constants
-
-// ---- derive(Clone, PartialEq) re-supplied.  ASSUMED (same reading as units C04 / C15 / C18): the
-// compiler-generated impls are a structural copy / structural equality.
-impl Clone for Constant {
-    #[verifier::external_body]
-    fn clone(&self) -> (r: Constant) ensures r == *self { unimplemented!() }
-}
-impl vstd::std_specs::cmp::PartialEqSpecImpl for Constant {
-    open spec fn obeys_eq_spec() -> bool { true }
-    open spec fn eq_spec(&self, other: &Constant) -> bool { *self == *other }
-}
-impl PartialEq for Constant {
-    #[verifier::external_body]
-    fn eq(&self, other: &Constant) -> (r: bool) ensures r == (*self == *other) { unimplemented!() }
-}
-// derive(Clone) on Constants clones the HashMap: std's `HashMap::clone` yields a map with the same
-// key/value pairs (keys and values cloned; both clones are structural copies).  Stated on the view.
-impl Clone for Constants {
-    #[verifier::external_body]
-    fn clone(&self) -> (r: Constants) ensures r.constants@ == self.constants@ { unimplemented!() }
-}
-// derive(Debug): needed as a trait bound only; opaque, no contract
-impl std::fmt::Debug for Constants {
-    #[verifier::external_body]
-    fn fmt(&self, f: &mut std::fmt::Formatter<'_>) -> std::fmt::Result { unimplemented!() }
-}
-
-// ---------------------------------------------------------------------------------------------
-// spec vocabulary
-
-/// what Constant::partial_cmp computes: Bottom < Constant(c) < Top, two different constants are unrelated
-pub open spec fn ccmp(a: Constant, b: Constant) -> Option<Ordering> {
-    match a {
-        Constant::Top => match b {
-            Constant::Top => Some(Ordering::Equal),
-            _ => Some(Ordering::Greater),
-        },
-        Constant::Constant(lc) => match b {
-            Constant::Top => Some(Ordering::Less),
-            Constant::Constant(rc) => if lc == rc { Some(Ordering::Equal) } else { None },
-            Constant::Bottom => Some(Ordering::Greater),
-        },
-        Constant::Bottom => match b {
-            Constant::Bottom => Some(Ordering::Equal),
-            _ => Some(Ordering::Less),
-        },
-    }
-}
-
-impl vstd::std_specs::cmp::PartialOrdSpecImpl for Constant {
-    open spec fn obeys_partial_cmp_spec() -> bool { true }
-    open spec fn partial_cmp_spec(&self, other: &Constant) -> Option<Ordering> { ccmp(*self, *other) }
-}
 
 impl Constant {
 //@ fn impl Constant :: fn get
@@ -77,16 +22,267 @@ impl PartialOrd for Constant {
 //@ end
 }
 
+// ---------------------------------------------------------------------------------------------
+// facts about an enumeration of a map (vstd's HashMap::iter contract, vocabulary of units/C11)
+
+/// key `s` is among the first `n` items
+pub open spec fn seen(items: Seq<(&il::Scalar, &Constant)>, n: int, s: il::Scalar) -> bool {
+    exists|i: int| 0 <= i < n && i < items.len() && *(#[trigger] items[i]).0 == s
+}
+
+pub proof fn lemma_items(items: Seq<(&il::Scalar, &Constant)>, m: CView)
+    requires graph::seq_lists_map(items, m),
+    ensures
+        items.len() == m.len(),
+        forall|i: int| 0 <= i < items.len() ==> m.contains_key(*(#[trigger] items[i]).0) && m[*items[i].0] == *items[i].1,
+        forall|i: int, j: int| 0 <= i < items.len() && 0 <= j < items.len() && i != j ==> *(#[trigger] items[i]).0 != *(#[trigger] items[j]).0,
+        forall|s: il::Scalar| m.contains_key(s) <==> seen(items, items.len() as int, s),
+{
+    graph::lemma_seq_lists_map(items, m);
+    assert forall|i: int| 0 <= i < items.len() implies m.contains_key(*(#[trigger] items[i]).0) && m[*items[i].0] == *items[i].1 by {
+        assert(m.contains_pair(*items[i].0, *items[i].1));
+    }
+    assert forall|s: il::Scalar| m.contains_key(s) <==> seen(items, items.len() as int, s) by {
+        if m.contains_key(s) {
+            let i = choose|i: int| 0 <= i < items.len() && *(#[trigger] items[i]).0 == s;
+            assert(seen(items, items.len() as int, s));
+        }
+        if seen(items, items.len() as int, s) {
+            let i = choose|i: int| 0 <= i < items.len() && *(#[trigger] items[i]).0 == s;
+            assert(m.contains_pair(*items[i].0, *items[i].1));
+        }
+    }
+}
+
+/// two finite maps of the same size, one domain inside the other: the domains coincide
+pub proof fn lemma_same_len_dom(a: CView, b: CView)
+    requires a.len() == b.len(), dom_sub(a, b),
+    ensures a.dom() == b.dom(),
+{
+    assert(a.dom().subset_of(b.dom())) by {
+        assert forall|s: il::Scalar| a.dom().contains(s) implies b.dom().contains(s) by { assert(a.contains_key(s)); }
+    }
+    vstd::set_lib::lemma_subset_equality(a.dom(), b.dom());
+}
+
+/// the first `n` items of `a` have counterparts in `b` that are at least as high
+pub open spec fn le_scan(b: CView, items: Seq<(&il::Scalar, &Constant)>, n: int) -> bool {
+    forall|i: int| 0 <= i < n ==> b.contains_key(*(#[trigger] items[i]).0) && cle(*items[i].1, b[*items[i].0])
+}
+
+pub proof fn lemma_le_scan(a: CView, b: CView, items: Seq<(&il::Scalar, &Constant)>, n: int)
+    requires graph::seq_lists_map(items, a), 0 <= n <= items.len(), le_scan(b, items, n),
+    ensures n == items.len() ==> all_le(a, b),
+{
+    if n == items.len() {
+        lemma_items(items, a);
+        assert forall|s: il::Scalar| #[trigger] a.contains_key(s) implies b.contains_key(s) && cle(a[s], b[s]) by {
+            assert(seen(items, items.len() as int, s));
+            let i = choose|i: int| 0 <= i < items.len() && *(#[trigger] items[i]).0 == s;
+        }
+    }
+}
+
+pub proof fn lemma_le_fail(a: CView, b: CView, s: il::Scalar)
+    requires a.contains_key(s), !(b.contains_key(s) && cle(a[s], b[s])),
+    ensures !all_le(a, b),
+{
+}
+
+/// state of the scan of the equal-size case of Constants::partial_cmp after `n` items
+pub open spec fn eq_scan(b: CView, items: Seq<(&il::Scalar, &Constant)>, n: int, order: Ordering) -> bool {
+    &&& forall|i: int| 0 <= i < n ==> b.contains_key(*(#[trigger] items[i]).0) && ccmp(*items[i].1, b[*items[i].0]) is Some
+    &&& order == Ordering::Equal ==> forall|i: int| 0 <= i < n ==> ccmp(*(#[trigger] items[i]).1, b[*items[i].0]) == Some(Ordering::Equal)
+    &&& order == Ordering::Less ==> (forall|i: int| 0 <= i < n ==> ccmp(*(#[trigger] items[i]).1, b[*items[i].0]) != Some(Ordering::Greater))
+            && (exists|i: int| 0 <= i < n && ccmp(*(#[trigger] items[i]).1, b[*items[i].0]) == Some(Ordering::Less))
+    &&& order == Ordering::Greater ==> (forall|i: int| 0 <= i < n ==> ccmp(*(#[trigger] items[i]).1, b[*items[i].0]) != Some(Ordering::Less))
+            && (exists|i: int| 0 <= i < n && ccmp(*(#[trigger] items[i]).1, b[*items[i].0]) == Some(Ordering::Greater))
+}
+
+/// one step of the scan: item `n` is comparable; the running order moves as the code moves it
+pub proof fn lemma_eq_scan_step(b: CView, items: Seq<(&il::Scalar, &Constant)>, n: int, order: Ordering, order2: Ordering)
+    requires
+        eq_scan(b, items, n, order), 0 <= n < items.len(),
+        b.contains_key(*items[n].0),
+        ({ let c = ccmp(*items[n].1, b[*items[n].0]);
+           ||| c == Some(Ordering::Equal) && order2 == order
+           ||| c == Some(Ordering::Less) && order != Ordering::Greater && order2 == Ordering::Less
+           ||| c == Some(Ordering::Greater) && order != Ordering::Less && order2 == Ordering::Greater }),
+    ensures eq_scan(b, items, n + 1, order2),
+{
+    let c = ccmp(*items[n].1, b[*items[n].0]);
+    if order2 == Ordering::Less {
+        if c == Some(Ordering::Less) { assert(ccmp(*items[n].1, b[*items[n].0]) == Some(Ordering::Less)); }
+        else { let i = choose|i: int| 0 <= i < n && ccmp(*(#[trigger] items[i]).1, b[*items[i].0]) == Some(Ordering::Less); }
+    }
+    if order2 == Ordering::Greater {
+        if c == Some(Ordering::Greater) { assert(ccmp(*items[n].1, b[*items[n].0]) == Some(Ordering::Greater)); }
+        else { let i = choose|i: int| 0 <= i < n && ccmp(*(#[trigger] items[i]).1, b[*items[i].0]) == Some(Ordering::Greater); }
+    }
+}
+
+/// the scan is complete: the running order is the answer
+pub proof fn lemma_eq_scan_done(a: CView, b: CView, items: Seq<(&il::Scalar, &Constant)>, n: int, order: Ordering)
+    requires graph::seq_lists_map(items, a), a.len() == b.len(), 0 <= n <= items.len(), eq_scan(b, items, n, order),
+    ensures n == items.len() ==> cmp_view(a, b) == Some(order),
+{
+    if n == items.len() {
+        lemma_items(items, a);
+        assert(dom_sub(a, b)) by {
+            assert forall|s: il::Scalar| #[trigger] a.contains_key(s) implies b.contains_key(s) by {
+                assert(seen(items, items.len() as int, s));
+                let i = choose|i: int| 0 <= i < items.len() && *(#[trigger] items[i]).0 == s;
+            }
+        }
+        assert forall|s: il::Scalar, o: Option<Ordering>| #[trigger] rel_at(a, b, s, o) implies
+            exists|i: int| 0 <= i < n && *(#[trigger] items[i]).0 == s && ccmp(*items[i].1, b[*items[i].0]) == o by {
+            assert(seen(items, items.len() as int, s));
+            let i = choose|i: int| 0 <= i < items.len() && *(#[trigger] items[i]).0 == s;
+        }
+        assert(!some_rel(a, b, None));
+        if order == Ordering::Less {
+            let i = choose|i: int| 0 <= i < n && ccmp(*(#[trigger] items[i]).1, b[*items[i].0]) == Some(Ordering::Less);
+            assert(rel_at(a, b, *items[i].0, Some(Ordering::Less)));
+            assert(!some_rel(a, b, Some(Ordering::Greater)));
+        } else if order == Ordering::Greater {
+            let i = choose|i: int| 0 <= i < n && ccmp(*(#[trigger] items[i]).1, b[*items[i].0]) == Some(Ordering::Greater);
+            assert(rel_at(a, b, *items[i].0, Some(Ordering::Greater)));
+            assert(!some_rel(a, b, Some(Ordering::Less)));
+        } else {
+            assert(!some_rel(a, b, Some(Ordering::Less)));
+            assert(!some_rel(a, b, Some(Ordering::Greater)));
+        }
+    }
+}
+
+/// the scan stops: a key of `a` is missing in `b`, or an entry is unrelated, or both directions occur
+pub proof fn lemma_eq_scan_none(a: CView, b: CView, items: Seq<(&il::Scalar, &Constant)>, n: int, order: Ordering)
+    requires
+        graph::seq_lists_map(items, a), a.len() == b.len(), 0 <= n < items.len(), eq_scan(b, items, n, order),
+        ({ let k = *items[n].0; let v = *items[n].1;
+           ||| !b.contains_key(k)
+           ||| ccmp(v, b[k]) is None
+           ||| ccmp(v, b[k]) == Some(Ordering::Less) && order == Ordering::Greater
+           ||| ccmp(v, b[k]) == Some(Ordering::Greater) && order == Ordering::Less }),
+    ensures cmp_view(a, b) is None,
+{
+    lemma_items(items, a);
+    let k = *items[n].0; let v = *items[n].1;
+    assert(a.contains_key(k) && a[k] == v);
+    if !b.contains_key(k) {
+        assert(!dom_sub(a, b));
+    } else if ccmp(v, b[k]) is None {
+        assert(rel_at(a, b, k, None));
+    } else if ccmp(v, b[k]) == Some(Ordering::Less) {
+        let i = choose|i: int| 0 <= i < n && ccmp(*(#[trigger] items[i]).1, b[*items[i].0]) == Some(Ordering::Greater);
+        assert(rel_at(a, b, k, Some(Ordering::Less)));
+        assert(rel_at(a, b, *items[i].0, Some(Ordering::Greater)));
+    } else {
+        let i = choose|i: int| 0 <= i < n && ccmp(*(#[trigger] items[i]).1, b[*items[i].0]) == Some(Ordering::Less);
+        assert(rel_at(a, b, k, Some(Ordering::Greater)));
+        assert(rel_at(a, b, *items[i].0, Some(Ordering::Less)));
+    }
+}
+
+impl PartialOrd for Constants {
+//@ fn impl PartialOrd for Constants :: fn partial_cmp nopub loops=3
+//@ rewrite 1 `for (ls, lc) in self.constants.iter() {` => `for (ls, lc) in it: self.constants.iter() {` ## R-ghost-iter-name: names the ghost iterator of the for loop so that invariants can mention it; no executable change
+//@ rewrite 1 `for (ls, lc) in other.constants.iter() {` => `for (ls, lc) in it: other.constants.iter() {` ## R-ghost-iter-name: names the ghost iterator of the for loop so that invariants can mention it; no executable change
+//@ rewrite 1 `for (ls, lc) in &self.constants {` => `for (ls, lc) in it: &self.constants {` ## R-ghost-iter-name: names the ghost iterator of the for loop so that invariants can mention it; no executable change
+//@ closure 0 |rc: &Constant| -> (b: bool)
+    ensures b == cle(*lc, *rc),
+//@ closure 1 |rc: &Constant| -> (b: bool)
+    ensures b == cle(*lc, *rc),
+//@ spec
+    ensures /*@exact*/ r == cmp_view(self@, other@),
+//@ enter
+    broadcast use {ordering_cmp::axiom_ordering_obeys_partial_cmp, ordering_cmp::axiom_ordering_partial_cmp};
+//@ loop 0
+    invariant
+        graph::seq_lists_map(it.seq(), self@),
+        self@.len() < other@.len(),
+        le_scan(other@, it.seq(), it.index@),
+        it.index@ == it.seq().len() ==> all_le(self@, other@),
+//@ before 0 `if !other.constants.get(ls)`
+    proof { lemma_items(it.seq(), self@); }
+//@ before 0 `return None;`
+    proof { lemma_le_fail(self@, other@, *ls); }
+//@ after 0 `return None; }`
+    proof { lemma_le_scan(self@, other@, it.seq(), it.index@ + 1); }
+//@ loop 1
+    invariant
+        graph::seq_lists_map(it.seq(), other@),
+        self@.len() > other@.len(),
+        le_scan(self@, it.seq(), it.index@),
+        it.index@ == it.seq().len() ==> all_le(other@, self@),
+//@ before 0 `if !self.constants.get(ls)`
+    proof { lemma_items(it.seq(), other@); }
+//@ before 1 `return None;`
+    proof { lemma_le_fail(other@, self@, *ls); }
+//@ after 1 `return None; }`
+    proof { lemma_le_scan(other@, self@, it.seq(), it.index@ + 1); }
+//@ loop 2
+    invariant
+        graph::seq_lists_map(it.seq(), self@),
+        self@.len() == other@.len(),
+        eq_scan(other@, it.seq(), it.index@, order),
+        it.index@ == it.seq().len() ==> cmp_view(self@, other@) == Some(order),
+//@ before 0 `match other.constants.get(ls) {`
+    let ghost order0 = order;
+//@ before 2 `return None;`
+    proof { lemma_eq_scan_none(self@, other@, it.seq(), it.index@, order0); }
+//@ before 3 `return None;`
+    proof { lemma_eq_scan_none(self@, other@, it.seq(), it.index@, order0); }
+//@ before 4 `return None;`
+    proof { lemma_eq_scan_none(self@, other@, it.seq(), it.index@, order0); }
+//@ before 5 `return None;`
+    proof { lemma_eq_scan_none(self@, other@, it.seq(), it.index@, order0); }
+//@ after 0 `None => { return None; } }`
+    proof {
+        lemma_eq_scan_step(other@, it.seq(), it.index@, order0, order);
+        lemma_eq_scan_done(self@, other@, it.seq(), it.index@ + 1, order);
+    }
+//@ end
+}
+
 impl Constants {
-    pub open spec fn view(&self) -> Map<il::Scalar, Constant> { self.constants@ }
 
 //@ fn impl Constants :: fn new
 //@ spec
     ensures /*@empty*/ r@ == Map::<il::Scalar, Constant>::empty(),
 //@ end
 
+//@ fn impl Constants :: fn scalar
+//@ closure 0 |constant: &Constant| -> (o: Option<&il::Constant>)
+    ensures
+        *constant matches Constant::Constant(c) ==> o == Some(&c),
+        !(*constant is Constant) ==> o is None,
+//@ spec
+    ensures
+        /*@known*/ r matches Some(c) ==> known(self@, *scalar) == Some(*c),
+        /*@unknown*/ r is None ==> known(self@, *scalar) is None,
+//@ end
+
 //@ fn impl Constants :: fn set_scalar
 //@ spec
     ensures /*@insert*/ final(self)@ == old(self)@.insert(scalar, constant),
 //@ end
-}
+
+//@ fn impl Constants :: fn top
+//@ rewrite 1 `self.constants .iter_mut() .for_each(|(_, constant)| *constant =` => `hashmap_fill::hashmap_fill_values(&mut self.constants,` ## R-fill: `m.iter_mut().for_each(|(_, x)| *x = E)` assigns E to every stored value and touches no key; for a side-effect-free E that does not mention the entry this is `hashmap_fill_values(&mut m, E)` (prelude/hashmap_fill.rs, assumed contract of iter_mut); E stays the original tokens
+//@ spec
+    ensures /*@top*/ final(self)@ == top_view(old(self)@),
+//@ end
+
+//@ fn impl Constants :: fn join loops=1
+//@ rewrite 1 `for (scalar, constant) in other.constants.iter() {` => `for (scalar, constant) in it: other.constants.iter() {` ## R-ghost-iter-name: names the ghost iterator of the for loop so that invariants can mention it; no executable change
+//@ spec
+    ensures /*@join*/ r@ == join_view(self@, other@),
+//@ loop 0
+    invariant
+        graph::seq_lists_map(it.seq(), other@),
+        forall|s: il::Scalar| #![trigger result@.contains_key(s)] result@.contains_key(s) <==> (self@.contains_key(s) || seen(it.seq(), it.index@, s)),
+        forall|s: il::Scalar| #![trigger result@[s]] result@.contains_key(s) ==> result@[s] == (if seen(it.seq(), it.index@, s) { join_val(self@, other@, s) } else { self@[s] }),
+//@ end
+
+} // impl Constants
